@@ -94,7 +94,18 @@ def ground_index(exprs):
             fk = _fkey(e)
             for p, c in enumerate(ch):
                 if not _has_var(c) and not z3.is_array(c) and (not z3.is_seq(c) or z3.is_string(c)):
-                    idx.setdefault((fk, p), {})[c.get_id()] = c
+                    others = tuple(o.get_id() for q, o in enumerate(ch) if q != p)
+                    idx.setdefault((fk, p, others), {})[c.get_id()] = c
+                    idx.setdefault((fk, p, None), {})[c.get_id()] = c
+                    if e.decl().kind() == z3.Z3_OP_SELECT and p == 1 and len(ch) == 2:
+                        # select(store(A, a, b), t) also concerns A at t and at a (read-over-write)
+                        base = ch[0]
+                        while z3.is_app(base) and base.decl().kind() == z3.Z3_OP_STORE:
+                            a = base.arg(1)
+                            base = base.arg(0)
+                            idx.setdefault((fk, 1, (base.get_id(),)), {})[c.get_id()] = c
+                            if not _has_var(a):
+                                idx.setdefault((fk, 1, (base.get_id(),)), {})[a.get_id()] = a
         for c in ch:
             rec(c)
 
@@ -136,12 +147,16 @@ def _triggers(body, nvars):
             return
         if _is_indexing(e):
             fk = _fkey(e)
-            for p, c in enumerate(e.children()):
+            ch = e.children()
+            for p, c in enumerate(ch):
                 vo = var_off(c)
                 if vo is not None:
                     vi = vo[0] - depth
                     if 0 <= vi < nvars:
-                        trig[vi].append((fk, p, vo[1]))
+                        rest = [o for q, o in enumerate(ch) if q != p]
+                        # match only occurrences on the same (ground) array / sequence / co-arguments
+                        others = tuple(o.get_id() for o in rest) if not any(_has_var(o) for o in rest) else None
+                        trig[vi].append((fk, p, vo[1], others))
         for c in e.children():
             rec(c, depth)
 
@@ -160,8 +175,8 @@ def instantiate_once(exprs, idx, consts, stats):
             # de Bruijn: variable j (0 = innermost/last) <-> quantifier position n-1-j
             sort = e.var_sort(n - 1 - j)
             c = {}
-            for fk, p, off in trig[j]:
-                for g in idx.get((fk, p), {}).values():
+            for fk, p, off, others in trig[j]:
+                for g in idx.get((fk, p, others), {}).values():
                     if g.sort() != sort:
                         continue
                     t = g if off == 0 else z3.simplify(g - off)
@@ -228,7 +243,7 @@ def make_qf(assertions, rounds=3):
                 idx.setdefault(k, {}).update(d)
             for k, d in consts0.items():
                 consts.setdefault(k, {}).update(d)
-        size = sum(len(d) for d in idx.values()) + sum(len(d) for d in consts.values())
+        size = sum(len(d) for k, d in idx.items() if k[2] is None) + sum(len(d) for d in consts.values())
         stats["rounds"] = r
         if size == prev_size:
             break
